@@ -23,7 +23,13 @@ pub struct Call {
     /// build_array / build_object only: an item that is not JSONB at all (position, bytes). The functions assume valid
     /// items, so nothing is required of what such a call appends -- only that earlier bytes and offsets survive.
     pub bad_item: Option<(usize, Vec<u8>)>,
+    /// a register passed as JSON text that does not parse (register, bytes): a malformed row in the column. Like a bad
+    /// item, only the frame condition is required of such a call; what matters is that the calls after it are unaffected.
+    pub bad_text: Option<(usize, Vec<u8>)>,
 }
+
+/// JSON text that does not parse and is not mistaken for JSONB by `is_jsonb` either.
+pub const BAD_TEXTS: &[&[u8]] = &[b"[1,", b"{\"a\":", b"[nul", b"tru", b"\"abc", b"[1 2]", b"{\"a\" 1}", b"-", b"1e", b"[1,2,3]]", b"{\"a\":1,}", b"\xff\xfe"];
 
 const BAD_ITEMS: &[&[u8]] = &[b"null", b"true", b"false", b"\x00\x00\x00\x00", b"\xa0\x00\x00\x01", b"\xc0\x00\x00\x00", b"\xe0\x00\x00\x00rest", b"", b"\x20", b"\x80\x00"];
 
@@ -53,12 +59,16 @@ pub struct Case {
     pub styles: Vec<TextStyle>,
     pub prefill: Vec<u8>,
     pub prefill_offsets: Vec<u64>,
-    /// 0 exact fit before every call (forces reallocation), 1 large reserve, 2 alternate
+    /// 0 exact fit before every call (forces reallocation), 1 large reserve, 2 alternate, 3 a few spare bytes (1-64: the
+    /// call starts in place and reallocates part-way through)
     pub policy: u8,
     pub calls: Vec<Call>,
     /// when non-zero the buffer starts as this many zero bytes (a column that has already grown to 256 MiB / 4 GiB:
     /// where a 28-bit length or a 32-bit index first goes wrong); `prefill` is then ignored
     pub prefill_zeros: u64,
+    /// path selections run on one compiled `Selector` per distinct path, kept for the whole batch (compile once, run per
+    /// row), instead of on a selector built for the call
+    pub reuse_selectors: bool,
 }
 
 /// Only one worker at a time materialises a multi-GiB buffer.
@@ -78,7 +88,9 @@ impl Batch {
             .iter()
             .enumerate()
             .map(|(i, v)| {
-                if call.text_regs.contains(&i) {
+                if let Some((_, bytes)) = call.bad_text.as_ref().filter(|(reg, _)| *reg == i) {
+                    bytes.clone()
+                } else if call.text_regs.contains(&i) {
                     mval::to_text(v, &case.styles[i]).into_bytes()
                 } else {
                     mval::encode(v)
@@ -237,13 +249,47 @@ impl Scenario for Batch {
             _ => (0..r.urange(1, 512)).map(|_| r.below(256) as u8).collect(),
         };
         let prefill_offsets: Vec<u64> = if r.chance(1, 2) { vec![] } else { (0..r.urange(1, 4)).map(|_| r.below(1000)).collect() };
-        let policy = r.below(3) as u8;
+        let policy = r.below(4) as u8;
         let ncalls = r.urange(1, 40);
         let ocfg = OpGenCfg { kinds: &kinds, vals: &vals, filters: true, fail_pct };
         let mut calls = vec![];
         for _ in 0..ncalls {
             let kind = *r.pick(&kinds);
-            let op = opgen::gen_op(&mut r, kind, &regs, &ocfg);
+            let mut op = opgen::gen_op(&mut r, kind, &regs, &ocfg);
+            match &mut op {
+                // build_object takes the keys as the caller gives them: also out of order and repeated
+                Op::BuildObject { items } if items.len() > 1 && r.chance(1, 3) => {
+                    for i in (1..items.len()).rev() {
+                        let j = r.idx(i + 1);
+                        items.swap(i, j);
+                    }
+                    if r.chance(1, 2) {
+                        let (from, to) = (r.idx(items.len()), r.idx(items.len()));
+                        items[to].0 = items[from].0.clone();
+                        if r.chance(1, 2) {
+                            // adjacent repeat
+                            let it = items[from].clone();
+                            items.insert(from, it);
+                        }
+                    }
+                }
+                // the same path applied to another row: what a compiled selector is for
+                Op::Select { path, api, v } if r.chance(1, 3) => {
+                    let earlier: Vec<&Call> = calls.iter().filter(|c: &&Call| matches!(&c.op, Op::Select { .. })).collect();
+                    if !earlier.is_empty() {
+                        if let Op::Select { path: p0, api: a0, .. } = &earlier[r.idx(earlier.len())].op {
+                            // (a filter is evaluated per item: keep filtered paths off the very large documents)
+                            let target = r.idx(regs.len());
+                            if !(p0.has_filter() || p0.predicate.is_some()) || regs[target].node_count() <= 2000 {
+                                *path = p0.clone();
+                                *api = *a0;
+                                *v = target;
+                            }
+                        }
+                    }
+                }
+                _ => {}
+            }
             let reads = op.reads();
             let mut text_regs: Vec<usize> = vec![];
             for (pos, reg) in reads.iter().enumerate() {
@@ -266,7 +312,16 @@ impl Scenario for Batch {
             } else {
                 None
             };
-            calls.push(Call { op, text_regs, expect_err, bad_item });
+            // a malformed text row: one of the text arguments (or, for a two-document function entered through a text
+            // first argument, the second argument) does not parse
+            let mut bad_text = None;
+            if bad_item.is_none() && !text_regs.is_empty() && r.chance(fail_pct, 300) {
+                let cands: Vec<usize> = reads.iter().enumerate().filter(|(pos, reg)| op.arg_accepts_text(*pos) && (text_regs.contains(reg) || *pos == 1) && (reads.len() < 2 || reads[0] != reads[1])).map(|(_, reg)| *reg).collect();
+                if !cands.is_empty() {
+                    bad_text = Some((cands[r.idx(cands.len())], r.pick(BAD_TEXTS).to_vec()));
+                }
+            }
+            calls.push(Call { op, text_regs, expect_err, bad_item, bad_text });
         }
         // a few batches per tier run against a buffer that has already grown past 2^28 resp. 2^32 bytes
         let prefill_zeros = if run % 60_000 == 7 {
@@ -276,11 +331,22 @@ impl Scenario for Batch {
         } else {
             0
         };
+        let mut regs = regs;
         if prefill_zeros > 0 {
-            // purpose-built: every buffer-writing function once with JSONB arguments, then the text branches once
+            // purpose-built: every buffer-writing function once with JSONB arguments, then the text branches once, on
+            // registers that hold one document of every kind (so that every writer has something to write)
+            let mut m = std::collections::BTreeMap::new();
+            m.insert("a".to_string(), MVal::U64(r.below(1000)));
+            m.insert("k".to_string(), MVal::Arr(vec![MVal::Str("x".into()), MVal::Null, MVal::Bool(true)]));
+            m.insert("z".to_string(), MVal::Obj([("n".to_string(), MVal::Null), ("s".to_string(), MVal::Str("v".into()))].into_iter().collect()));
+            regs[0] = MVal::Obj(m.clone());
+            regs[1] = MVal::Arr(vec![MVal::U64(1), MVal::Str("two".into()), MVal::Obj(m), MVal::Arr(vec![MVal::Null, MVal::I64(-3)]), MVal::U64(1)]);
+            if regs.len() > 2 {
+                regs[2] = if r.chance(1, 2) { MVal::Str("scalar".into()) } else { MVal::f(2.5) };
+            }
             calls.clear();
             let all = OpGenCfg { kinds: BATCH_KINDS, vals: &vals, filters: true, fail_pct: 0 };
-            for pass in 0..2 {
+            for pass in [0, 0, 0, 1] {
                 for kind in BATCH_KINDS {
                     let op = opgen::gen_op(&mut r, kind, &regs, &all);
                     let reads = op.reads();
@@ -293,11 +359,12 @@ impl Scenario for Batch {
                         text_regs.dedup();
                     }
                     let expect_err = documented_error(&op, &regs);
-                    calls.push(Call { op, text_regs, expect_err, bad_item: None });
+                    calls.push(Call { op, text_regs, expect_err, bad_item: None, bad_text: None });
                 }
             }
         }
-        Case { regs, styles, prefill, prefill_offsets, policy, calls, prefill_zeros }
+        let reuse_selectors = r.chance(1, 2);
+        Case { regs, styles, prefill, prefill_offsets, policy, calls, prefill_zeros, reuse_selectors }
     }
 
     fn exec(&self, case: &Case, stats: &mut Stats) -> RunOut<Case> {
@@ -309,7 +376,36 @@ impl Scenario for Batch {
         let mut data = case.prefill.clone();
         let mut offsets = case.prefill_offsets.clone();
         let bin: Vec<Vec<u8>> = case.regs.iter().map(mval::encode).collect();
-        let mut push = |v: Viol, violations: &mut Vec<(Viol, Option<Case>)>| {
+        // compiled selectors, one per distinct (path, mode), built before the first call and kept to the end
+        let sel_key = |op: &Op| match op {
+            Op::Select { path, api, .. } => format!("{:?}/{}", path, api.mode()),
+            _ => String::new(),
+        };
+        let mut selectors: std::collections::BTreeMap<String, jsonb::jsonpath::Selector<'static>> = Default::default();
+        if case.reuse_selectors {
+            for call in &case.calls {
+                if let Some(sel) = ops::make_selector(&call.op) {
+                    selectors.entry(sel_key(&call.op)).or_insert(sel);
+                }
+            }
+        }
+        // argument bytes of calls that do not use the plain JSONB registers (they must outlive the selectors' borrows)
+        let own_args: Vec<Option<Vec<Vec<u8>>>> = case
+            .calls
+            .iter()
+            .map(|call| {
+                if call.text_regs.is_empty() && call.bad_item.is_none() && call.bad_text.is_none() {
+                    None
+                } else {
+                    let mut a = Batch::args_for(case, call);
+                    if let Some((_, bytes)) = &call.bad_item {
+                        a.push(bytes.clone());
+                    }
+                    Some(a)
+                }
+            })
+            .collect();
+        let push = |v: Viol, violations: &mut Vec<(Viol, Option<Case>)>| {
             if !violations.iter().any(|(x, _)| x.class == v.class) {
                 violations.push((v, None));
             }
@@ -319,6 +415,10 @@ impl Scenario for Batch {
             match case.policy {
                 0 => data.shrink_to_fit(),
                 1 => data.reserve(1 << 16),
+                3 => {
+                    data.shrink_to_fit();
+                    data.reserve_exact(1 + (ci * 7 + data.len()) % 64);
+                }
                 _ => {
                     if ci % 2 == 0 {
                         data.shrink_to_fit()
@@ -330,11 +430,17 @@ impl Scenario for Batch {
             if data.capacity() == data.len() {
                 stats.inc("probe/exact_fit_call");
             }
-            let mut args = if call.text_regs.is_empty() { bin.clone() } else { Batch::args_for(case, call) };
+            let args: &[Vec<u8>] = own_args[ci].as_deref().unwrap_or(&bin);
             let op_eff = effective_op(call, case.regs.len());
-            if let Some((_, bytes)) = &call.bad_item {
-                args.push(bytes.clone());
+            if call.bad_item.is_some() {
                 stats.inc("probe/invalid_item_injected");
+            }
+            if call.bad_text.is_some() {
+                stats.inc("probe/unparsable_text_injected");
+            }
+            let reused = selectors.get(&sel_key(&call.op)).filter(|_| matches!(&call.op, Op::Select { api, .. } if !api.accepts_text()));
+            if reused.is_some() {
+                stats.inc("probe/compiled_selector_reused");
             }
             let before = data.clone();
             let before_off = offsets.clone();
@@ -354,11 +460,11 @@ impl Scenario for Batch {
                 }
             }
             // the call under test, on the shared buffer
-            let out = guard(|| ops::call(&op_eff, &args, &case.regs, &mut data, &mut offsets));
-            // the same call on a fresh, empty buffer
+            let out = guard(|| ops::call_with(&op_eff, args, &case.regs, &mut data, &mut offsets, reused));
+            // the same call on a fresh, empty buffer (and a selector built for this call)
             let mut fresh = Vec::new();
             let mut fresh_off = Vec::new();
-            let out2 = guard(|| ops::call(&op_eff, &args, &case.regs, &mut fresh, &mut fresh_off));
+            let out2 = guard(|| ops::call(&op_eff, args, &case.regs, &mut fresh, &mut fresh_off));
             let (out, out2) = match (out, out2) {
                 (Err(p), _) | (_, Err(p)) => {
                     digest.str(&p.loc);
@@ -391,10 +497,10 @@ impl Scenario for Batch {
                 );
                 break;
             }
-            if call.bad_item.is_some() {
-                // an invalid item: the functions assume valid JSONB items; only the frame condition above is required
+            if call.bad_item.is_some() || call.bad_text.is_some() {
+                // an invalid item / unparsable text: the statement is about valid input; only the frame condition above is required
                 if let LibOut::Wrote(Err(e)) = &out {
-                    stats.inc2("errors", &format!("{name}:{e}(invalid item)"));
+                    stats.inc2("errors", &format!("{name}:{e}({})", if call.bad_item.is_some() { "invalid item" } else { "unparsable text" }));
                 }
                 continue;
             }
@@ -460,10 +566,13 @@ impl Scenario for Batch {
                 }
                 LibOut::Wrote(Err(e)) => {
                     stats.inc2("errors", &format!("{name}:{e}"));
-                    if call.expect_err {
-                        stats.inc("probe/documented_error_injected");
-                        // 3. nothing is appended
-                        if data != before || offsets != before_off {
+                    // 3. nothing is appended. Every argument of this call is valid, so an error it returns is one the function
+                    // declares for valid input whether or not the batch was built to provoke it
+                    if data != before || offsets != before_off {
+                        if !call.expect_err {
+                            stats.inc("probe/unexpected_err");
+                        }
+                        {
                             push(
                                 Viol {
                                     class: format!("error_after_write:{name}:{e}"),
@@ -473,6 +582,8 @@ impl Scenario for Batch {
                             );
                             break;
                         }
+                    } else if call.expect_err {
+                        stats.inc("probe/documented_error_injected");
                     } else {
                         stats.inc("probe/unexpected_err");
                     }
@@ -534,11 +645,23 @@ impl Scenario for Batch {
             c.policy = 1;
             out.push(c);
         }
+        if case.reuse_selectors {
+            let mut c = case.clone();
+            c.reuse_selectors = false;
+            out.push(c);
+        }
         // binary instead of text
         for i in 0..case.calls.len() {
             if !case.calls[i].text_regs.is_empty() {
                 let mut c = case.clone();
                 c.calls[i].text_regs.clear();
+                out.push(c);
+            }
+        }
+        for i in 0..case.calls.len() {
+            if case.calls[i].bad_text.is_some() {
+                let mut c = case.clone();
+                c.calls[i].bad_text = None;
                 out.push(c);
             }
         }
@@ -565,8 +688,10 @@ impl Scenario for Batch {
             "prefill_offsets": case.prefill_offsets,
             "capacity_policy": case.policy,
             "prefill_zero_bytes": case.prefill_zeros,
+            "reuse_selectors": case.reuse_selectors,
             "calls": case.calls.iter().map(|c| json!({"call": c.op.to_json(), "text_regs": c.text_regs, "built_to_fail": c.expect_err,
-                "bad_item": c.bad_item.as_ref().map(|(p, b)| json!({"pos": p, "hex": mval::hex(b)}))})).collect::<Vec<_>>(),
+                "bad_item": c.bad_item.as_ref().map(|(p, b)| json!({"pos": p, "hex": mval::hex(b)})),
+                "bad_text": c.bad_text.as_ref().map(|(p, b)| json!({"reg": p, "hex": mval::hex(b)}))})).collect::<Vec<_>>(),
         })
     }
 
@@ -588,6 +713,10 @@ impl Scenario for Batch {
                     Some(b) if b.is_object() => Some((b["pos"].as_u64().unwrap_or(0) as usize, mval::unhex(b["hex"].as_str().unwrap_or(""))?)),
                     _ => None,
                 },
+                bad_text: match c.get("bad_text") {
+                    Some(b) if b.is_object() => Some((b["reg"].as_u64().unwrap_or(0) as usize, mval::unhex(b["hex"].as_str().unwrap_or(""))?)),
+                    _ => None,
+                },
             });
         }
         Ok(Case {
@@ -598,6 +727,7 @@ impl Scenario for Batch {
             policy: j["capacity_policy"].as_u64().unwrap_or(1) as u8,
             calls,
             prefill_zeros: j["prefill_zero_bytes"].as_u64().unwrap_or(0),
+            reuse_selectors: j["reuse_selectors"].as_bool().unwrap_or(false),
         })
     }
 
@@ -630,7 +760,8 @@ impl Scenario for Batch {
         m.insert("errors_returned".into(), stats.group("errors"));
         m.insert(
             "fault_kinds".into(),
-            json!({"documented_error_injected": stats.get("probe/documented_error_injected"), "invalid_item_injected (build_array/build_object, frame condition only)": stats.get("probe/invalid_item_injected"), "forced_reallocation_exact_fit": stats.get("probe/exact_fit_call"),
+            json!({"documented_error_injected": stats.get("probe/documented_error_injected"), "invalid_item_injected (build_array/build_object, frame condition only)": stats.get("probe/invalid_item_injected"),
+                   "unparsable_text_argument_injected (frame condition only; later calls judged in full)": stats.get("probe/unparsable_text_injected"), "compiled_selector_reused_across_calls": stats.get("probe/compiled_selector_reused"), "forced_reallocation_exact_fit": stats.get("probe/exact_fit_call"),
                    "prefilled_buffer": stats.get("probe/prefilled_batch")}),
         );
         m.insert(
@@ -649,6 +780,8 @@ impl Scenario for Batch {
             "probe/offsets_reported",
             "probe/offsets_reported_nonempty_prior",
             "probe/invalid_item_injected",
+            "probe/unparsable_text_injected",
+            "probe/compiled_selector_reused",
             "probe/prior_buffer_256mib",
         ]
     }
